@@ -34,7 +34,8 @@ class Arguments:  # pylint: disable=too-few-public-methods
 def may_define_macros(sexpr):
     '''True if evaluating sexpr can make macros known that the compiler does not know'''
     if isinstance(sexpr, (WList, list)):
-        if len(sexpr) > 0 and sexpr[0] in [Operator.DEFMACRO, Operator.EVAL_FILE, Operator.REQUIRE]:
+        # eval: the code it runs is computed, it may be a defmacro form built with list or quasiquote
+        if len(sexpr) > 0 and sexpr[0] in [Operator.DEFMACRO, Operator.EVAL_FILE, Operator.REQUIRE, Operator.EVAL]:
             return True
         return any(may_define_macros(sub) for sub in sexpr)
     return False
